@@ -329,9 +329,16 @@ def _literal(chk, facts, syn, fn, arm, v, bound):
     if v == "ENum":
         # (num * 10 ** exp): an int iff the mantissa has no fraction
         s = src(arm["body"]).replace(" ", "")
-        ok = re.search(r"if\(?num\.contains\('\.'\)\)?\{FLOAT\}else\{INT\}", s) is not None
-        chk.ob("R-C04-4", "literal:ENum", ok, "ENum is a Float when its mantissa has a fraction, else an Int (printed as `(num * 10 ** exp)`)" if ok else
-               "ENum is no longer typed by its mantissa: `1.5E3` is the Python float 1500.0 and must not be typed Int", loc)
+        m = re.search(r"if\(*(.*?)\)*\{FLOAT\}else\{INT\}", s)
+        tests = set(re.sub(r"[()]", "", m.group(1)).split("||")) if m else set()
+        # does the lexer let an exponent be negative?  (`'-' if e_num ..` arm of the number loop)
+        tk = syn.one_fn("into_tokens", mod="parse::lex::tokenize")
+        neg_exp = any(a.get("guard") and "e_num" in src(a["guard"]) and any(alt.get("k") == "plit" and alt["e"].get("v") == "-" for alt in pat_alternatives(a["pat"]))
+                      for n in walk(tk["body"]) if n.get("k") == "match" for a in n["arms"])
+        want = {"num.contains'.'"} | ({"exp.starts_with'-'"} if neg_exp else set())
+        ok = m is not None and want <= tests and tests <= {"num.contains'.'", "exp.starts_with'-'"}
+        chk.ob("R-C04-4", "literal:ENum", ok, "ENum is a Float when its mantissa has a fraction" + (" or its exponent is negative" if neg_exp else "") + ", else an Int (printed as `(num * 10 ** exp)`)" if ok else
+               f"ENum is typed FLOAT under `{sorted(tests)}` but `(num * 10 ** exp)` is a Python float exactly when {sorted(want)}: e.g. `1.5E3` / `1E-3` must not be typed Int", loc)
         return
     cname = src(a1).split("::")[-1]
     val = _const(syn, cname)
